@@ -58,6 +58,10 @@ func (s *Server) manifestDelete(repoStr, arg string) http.HandlerFunc {
 		if *s.conf.API.Referrer.Enabled {
 			// wrap in a func to allow a return from errors without breaking the actual delete
 			err = func() error {
+				// deleting a tag leaves the manifest, and with it its entry in the referrers list, in place
+				if types.RefTagRE.MatchString(arg) {
+					return nil
+				}
 				rdr, err := repo.BlobGet(desc.Digest)
 				if err != nil {
 					return err
